@@ -188,6 +188,16 @@ pub fn check_bytes(bytes: &[u8], input: &FstInput, full: bool) -> CheckResult {
             Err(e) => vfail!("stream-mismatch", "into_strs failed on valid UTF-8 keys: {:?}", e),
         }
     }
+    // when some key is not UTF-8 the string-flavoured collectors cannot deliver the content; what
+    // they may not do is report success with part of it
+    if want.iter().any(|p| std::str::from_utf8(&p.0).is_err()) {
+        let n = want.len();
+        vensure!(!matches!(m.stream().into_str_vec(), Ok(ref v) if v.len() != n), "stream-mismatch", "Map into_str_vec returned Ok with fewer items than the map holds (a key is not UTF-8); input {}", short(want));
+        vensure!(!matches!(m.stream().into_str_keys(), Ok(ref v) if v.len() != n), "stream-mismatch", "Map into_str_keys returned Ok with fewer items than the map holds (a key is not UTF-8); input {}", short(want));
+        vensure!(!matches!(st.stream().into_strs(), Ok(ref v) if v.len() != n), "stream-mismatch", "Set into_strs returned Ok with fewer items than the set holds (a key is not UTF-8); input {}", short(want));
+        vensure!(!matches!(f.stream().into_str_vec(), Ok(ref v) if v.len() != n), "stream-mismatch", "raw into_str_vec returned Ok with fewer items than the fst holds (a key is not UTF-8); input {}", short(want));
+        vensure!(!matches!(f.stream().into_str_keys(), Ok(ref v) if v.len() != n), "stream-mismatch", "raw into_str_keys returned Ok with fewer items than the fst holds (a key is not UTF-8); input {}", short(want));
+    }
     // remaining collectors and conversions of the wrapper layer
     vensure!(m.stream().into_byte_keys() == keys_of(want), "stream-mismatch", "Map into_byte_keys mismatch for {}", short(want));
     vensure!(m.stream().into_values() == want.iter().map(|x| x.1).collect::<Vec<_>>(), "stream-mismatch", "Map into_values mismatch for {}", short(want));
